@@ -13,6 +13,7 @@ static std::vector<DayRow> load_table(const std::string& path) {
   DayRow r; while (fread(&r, sizeof r, 1, f) == 1) v.push_back(r); fclose(f); return v;
 }
 
+static volatile long g_sink2 = 0;
 int main(int argc, char** argv) {
   Args a = parse_args(argc, argv);
   Counters c;
@@ -96,6 +97,25 @@ int main(int argc, char** argv) {
       LocalDateTime ldt = LocalDateTime::forComponents((int16_t)y, 6, 15, 1, 2, 3);
       if (ldt.isError() == valid) violation("c06:datetime:year-validity", fmt("{\"year\":%d}", y));
       c.add("year_checks");
+    }
+    // the conversions are pure functions: the same day right after another day (2^8, 2^15, 2^16 days away, the neighbour,
+    // the error value, a date built from components) must give the same date as in the plain ascending sweep above
+    {
+      int64_t dmin = tab.front().epochDays, dmax = tab.back().epochDays;
+      for (size_t i = 0; i < tab.size(); i++) {
+        const DayRow& r = tab[i];
+        for (int64_t delta : {(int64_t)65536, (int64_t)-65536, (int64_t)32768, (int64_t)-32768, (int64_t)256, (int64_t)-256, (int64_t)1, (int64_t)-1, (int64_t)0}) {
+          int64_t other = r.epochDays + delta;
+          if (other < dmin || other > dmax) continue;
+          g_sink2 += LocalDate::forEpochDays((acetime_t)other).day();
+          LocalDate back = LocalDate::forEpochDays(r.epochDays);
+          if (back.year() != r.y || back.month() != r.m || back.day() != r.d)
+            violation("c06:date:forEpochDays-depends-on-previous-call", fmt("{\"epochDays\":%d,\"previous_call\":%lld,\"got\":\"%d-%d-%d\",\"want\":\"%d-%d-%d\"}", r.epochDays, (long long)other, back.year(), back.month(), back.day(), r.y, r.m, r.d));
+          LocalDate ld2 = LocalDate::forComponents(tab[(i * 7 + 3) % tab.size()].y, tab[(i * 7 + 3) % tab.size()].m, tab[(i * 7 + 3) % tab.size()].d); g_sink2 += ld2.toEpochDays();
+          if (LocalDate::forComponents(r.y, r.m, r.d).toEpochDays() != r.epochDays) violation("c06:date:toEpochDays-depends-on-previous-call", fmt("{\"epochDays\":%d}", r.epochDays));
+          c.add("date_reorder_checks");
+        }
+      }
     }
     // error sentinels
     if (!LocalDate::forEpochDays(LocalDate::kInvalidEpochDays).isError()) violation("c06:sentinel:forEpochDays", "{}");
